@@ -162,7 +162,14 @@ impl<'a> DataParser<'a> {
             return;
         }
 
-        if self.current_element.len() > 0 {
+        let has_pending_element = if self.state == ParseState::InDoubleQuotedString {
+            self.current_element.len() > 0
+        } else {
+            // Blanks after the last item (e.g. between a closing quote and
+            // the terminating colon) aren't an item of their own.
+            !self.current_element.trim().is_empty()
+        };
+        if has_pending_element {
             self.push_current_element();
         } else if self.elements.len() == 0 {
             self.push_current_element();
